@@ -687,13 +687,29 @@ class _Exporter:
             typerep = type_annotation.onnx_attr_type_to_onnxscript_repr(type)
             return f"{attr_name}: {typerep}"
 
+        def attr_with_default_sig(attr: onnx.AttributeProto) -> str | None:
+            """Attribute parameter with a default value (only int, float and string defaults)."""
+            if attr.type not in (
+                onnx.AttributeProto.INT,
+                onnx.AttributeProto.FLOAT,
+                onnx.AttributeProto.STRING,
+            ):
+                return None
+            self._attr_renaming[attr.name] = None
+            self._names_used.add(attr.name)
+            typerep = type_annotation.onnx_attr_type_to_onnxscript_repr(attr.type)
+            value = _to_str(onnx.helper.get_attribute_value(attr))
+            return f"{attr.name}: {typerep} = {value!r}"
+
         inputs = [self._translate_onnx_var(x) for x in funproto.input]
         attrs = [attr_sig(x) for x in funproto.attribute]
-        input_and_attrs = ", ".join(inputs + attrs)  # type: ignore[arg-type]
-        if len(funproto.attribute_proto) > 0:
+        attrs_with_default = [attr_with_default_sig(x) for x in funproto.attribute_proto]
+        if None in attrs_with_default:
             message = "\n   # Attribute parameters default-values not handled yet."
+            attrs_with_default = [x for x in attrs_with_default if x is not None]
         else:
             message = ""
+        input_and_attrs = ", ".join(inputs + attrs + attrs_with_default)  # type: ignore[arg-type]
         return f"({input_and_attrs}):{message}"
 
     def _translate_function(self, funproto: onnx.FunctionProto) -> str:
